@@ -153,3 +153,7 @@ func init() {
 	register("C02", ruleDataMatrixMerge)
 	register("C08", ruleGuards)
 }
+
+func init() {
+	register("C17", ruleConcurrency)
+}
